@@ -132,3 +132,81 @@ class RtpRef:
         if self.hi - i < self.ws:
             return True
         return None
+
+# --------------------------------------------------------------------------
+# session-level scripts
+
+NULL_CIPHER, ICM128, ICM192, ICM256, GCM128, GCM256 = 0, 1, 4, 5, 6, 7
+NULL_AUTH, HMAC = 0, 3
+SSRC_UNDEF, SSRC_SPECIFIC, SSRC_ANY_IN, SSRC_ANY_OUT = 0, 1, 2, 3
+
+def cp(cipher=ICM128, keylen=30, auth=HMAC, authkeylen=20, taglen=10, serv=3):
+    return (cipher, keylen, auth, authkeylen, taglen, serv)
+
+def policy_line(pid, ssrc_type=SSRC_SPECIFIC, ssrc=0xcafebabe, rtp=None, rtcp=None, key=None, keys=None,
+                use_mki=False, mki_size=0, window=128, allow_repeat=False, cryptex=False, enc_xtn=b"",
+                nkeys=None, use_key_field=None):
+    rtp = rtp or cp(); rtcp = rtcp or cp()
+    if keys is None:
+        keys = [(key if key is not None else bytes(range(1, 1 + max(rtp[1], rtcp[1]))), b"")]
+        if use_key_field is None:
+            use_key_field = True
+    if use_key_field is None:
+        use_key_field = False
+    if nkeys is None:
+        nkeys = 0 if use_key_field else len(keys)
+    ints = [pid, ssrc_type, ssrc, *rtp, *rtcp, int(use_key_field), nkeys, int(use_mki), mki_size, window,
+            int(allow_repeat), int(cryptex)]
+    bts = [hexb(enc_xtn)]
+    for k, m in keys:
+        bts += [hexb(k), hexb(m)]
+    return "policy " + " ".join(H(i) for i in ints) + " | " + " ".join(bts)
+
+
+def rtp_packet(ssrc, seq, payload=b"", pt=0x60, ts=0x11223344, marker=0, cc=0, csrcs=None, ext=None, version=2, pad=0):
+    """ext = (profile, data) with len(data) % 4 == 0"""
+    csrcs = csrcs if csrcs is not None else [0x10000000 + i for i in range(cc)]
+    b0 = (version << 6) | (pad << 5) | ((1 if ext is not None else 0) << 4) | (len(csrcs) & 15)
+    b = bytes([b0, (marker << 7) | (pt & 0x7f)]) + (seq & 0xffff).to_bytes(2, "big") + (ts & 0xffffffff).to_bytes(4, "big") \
+        + (ssrc & 0xffffffff).to_bytes(4, "big")
+    for c in csrcs:
+        b += (c & 0xffffffff).to_bytes(4, "big")
+    if ext is not None:
+        prof, data = ext
+        b += prof.to_bytes(2, "big") + (len(data) // 4).to_bytes(2, "big") + data
+    return b + payload
+
+
+def rtcp_packet(ssrc, body=b"", pt=200, rc=0):
+    n = (8 + len(body)) // 4 - 1
+    return bytes([0x80 | rc, pt]) + (n & 0xffff).to_bytes(2, "big") + (ssrc & 0xffffffff).to_bytes(4, "big") + body
+
+
+def one_byte_ext(elems, pad_lead=0, pad_between=0):
+    """elems: list of (id, data) with 1 <= len(data) <= 16; returns (0xBEDE, bytes padded to 4)"""
+    d = b"\x00" * pad_lead
+    for i, (eid, data) in enumerate(elems):
+        d += bytes([(eid << 4) | (len(data) - 1)]) + data + b"\x00" * pad_between
+    while len(d) % 4:
+        d += b"\x00"
+    return (0xBEDE, d)
+
+
+def two_byte_ext(elems, appbits=0, pad_between=0):
+    d = b""
+    for eid, data in elems:
+        d += bytes([eid, len(data)]) + data + b"\x00" * pad_between
+    while len(d) % 4:
+        d += b"\x00"
+    return (0x1000 | appbits, d)
+
+
+def pkt_op(op, sid, pkt, cap=None, mode=0, mki_index=0, extra=0):
+    """pkt: bytes or a back-reference string '@N...'"""
+    if isinstance(pkt, bytes):
+        n = len(pkt); ph = hexb(pkt)
+    else:
+        n = None; ph = pkt
+    if cap is None:
+        cap = (n if n is not None else 0) + extra
+    return f"{op} {H(sid)} {H(mki_index)} {H(cap)} {H(mode)} | {ph}"
